@@ -115,6 +115,11 @@ type runner struct {
 	keys      []string
 	freeRun   bool
 	ticking   bool // virtual time is passing: nothing may park
+	// admission race: callers that missed the shard lookup wait for each other right after the
+	// miss (outside the lock) and go for the lock together
+	raceBarrier  chan struct{}
+	raceExpected int
+	raceArrived  int
 	rng       *rand.Rand
 	nres      int
 }
@@ -306,6 +311,19 @@ func (r *runner) hook(ev string, ctx context.Context, owner, tok any, n ...int) 
 		proc = "?"
 	}
 	r.emit(ev, f)
+	if ev == "AdmitMiss" && r.raceBarrier != nil {
+		bar := r.raceBarrier
+		r.raceArrived++
+		if r.raceArrived >= r.raceExpected {
+			r.raceBarrier = nil
+			r.mu.Unlock()
+			close(bar)
+		} else {
+			r.mu.Unlock()
+			<-bar
+		}
+		return
+	}
 	if !r.sc.Gated || r.freeRun || r.ticking || !gatedEvents[ev] {
 		r.mu.Unlock()
 		return
@@ -905,6 +923,11 @@ func runScenario(t *testing.T, sc *Scenario, tr int, out *bufio.Writer) {
 			// admission and enqueue without parking, so that they really race for locks and slots
 			var gates []*gate
 			startTogether := make(chan struct{})
+			r.mu.Lock()
+			r.raceBarrier = make(chan struct{})
+			r.raceExpected = len(st) - 1
+			r.raceArrived = 0
+			r.mu.Unlock()
 			for i := 1; i < len(st); i++ {
 				c := arg(i)
 				r.mu.Lock()
@@ -922,6 +945,16 @@ func runScenario(t *testing.T, sc *Scenario, tr int, out *bufio.Writer) {
 				close(g.ch)
 			}
 			close(startTogether)
+			synctest.Wait()
+			// racers that hit an existing shard never reach the barrier: let the others go
+			r.mu.Lock()
+			if bar := r.raceBarrier; bar != nil {
+				r.raceBarrier = nil
+				r.mu.Unlock()
+				close(bar)
+			} else {
+				r.mu.Unlock()
+			}
 			synctest.Wait()
 		case "releaseall":
 			r.releaseAll()
